@@ -267,3 +267,31 @@ pub fn percentile_empty_input() {
    kani::cover!(p == 100.0);
    kani::cover!(p == 0.0);
 }
+
+/// percentile rank on *long* inputs: the rank depends only on the input length and p, so the input is
+/// the concrete sorted vector 0..L (L = 50, 100, 200 by instantiation) and only p (every integer
+/// percent) is symbolic; the element returned must be the one of rank min(floor(L*p/100), L-1).
+pub fn percentile_rank_long<const L: usize>() {
+   let mut arr = [0u8; L];
+   let mut i = 0;
+   while i < L {
+      arr[i] = i as u8;
+      i += 1;
+   }
+   let k: u8 = kani::any();
+   kani::assume(k <= 100);
+   let agg = aggregators::percentile::<u8, _>(k as f64);
+   let mut got = agg(arr.iter().map(|x| (x,)));
+   let g = got.next();
+   let mut idx = L * (k as usize) / 100;
+   if idx > L - 1 {
+      idx = L - 1
+   }
+   assert!(g == Some(idx as u8));
+   kani::cover!(k == 29);
+   kani::cover!(k == 100);
+}
+
+#[kani::proof]
+#[kani::unwind(52)]
+pub fn percentile_rank_len50() { percentile_rank_long::<50>() }
